@@ -25,6 +25,8 @@ Require Import V.Proofs.C04Statements.
 Require Import V.Oracle.C04Oracle.
 Require Import V.Proofs.C04OracleProofs.
 Require Import V.Proofs.C04XOracleProofs.
+Require Import V.Proofs.RenderWords.
+Require Import V.Proofs.C04Bytes.
 Open Scope Z_scope.
 
 (* every reachable state satisfies the invariant the other statements are proved from *)
@@ -238,6 +240,77 @@ Theorem C04_oracle_trip_words_partial : forall m rv s n off o s0 r0 n0 off0 e,
                 (o_dump (pub_obs m s (fst (pub_step m rv s o)) (snd (pub_step m rv s o)))) = true.
 Proof. exact oracle_words_trip. Qed.
 Print Assumptions C04_oracle_trip_words_partial.
+
+(* ---- the bytes part, completed (round 3) ----
+   `content_inv l n off`: the active partition's content ends where the tail counter says (at the end of the term once the
+   counter lies beyond it), the tail offset is a multiple of the frame alignment; `mtu_aligned`: the MTU is a multiple of 32
+   (what the driver guarantees; without it the full fragments of a fragmented message are padded and occupy more than
+   `required`).  Both hold at every aligned hand-over point and are kept by every history under the cleaning contract
+   (`C04_content_step`).
+
+   The complete per-step predicate `holds_append` = flow + bytes, for EVERY offer / claim / bulk offer (accepted: unfragmented,
+   fragmented, claim, vectored; refused; tripped): every changed word of an accepted append lies in [tail, tail + required) of the
+   active partition, the other partitions are untouched *)
+Theorem C04_oracle_append : forall m rv s n off o s0 r0 n0 off0,
+  pub_inv n off s -> content_inv (ps_log s) n off -> mtu_aligned (ps_log s) -> op_ok (ps_log s) o -> is_append o = true ->
+  holds_append (geom_of (ps_log s) n0 off0) (env_of s) (kind_of o) (op_len o)
+               (pub_obs m s0 s r0) (pub_obs m s (fst (pub_step m rv s o)) (snd (pub_step m rv s o))) = true.
+Proof. exact oracle_step_shared. Qed.
+Print Assumptions C04_oracle_append.
+
+(* what an accepted append writes: well-formed frames (header + payload inside the frame) laid from the tail offset on,
+   occupying exactly the required bytes; the tail counter advanced by as much *)
+Theorem C04_accept_frames : forall m rv s n off o s' p,
+  pub_inv n off s -> mtu_aligned (ps_log s) -> op_ok (ps_log s) o -> is_append o = true -> pub_step m rv s o = (s', Ok p) ->
+  exists es, Forall entry_wf es /\ term_end es = op_required (ps_log s) o /\
+    ps_log s' = set_part (set_tail (ps_log s) (n mod 3) (wrap32 (l_init (ps_log s) + n) * two32 + (off + op_required (ps_log s) o)))
+                         (n mod 3) (term_put (part (ps_log s) (n mod 3)) off es) /\
+    off + op_required (ps_log s) o <= l_tlen (ps_log s).
+Proof. exact pub_step_wrote. Qed.
+Print Assumptions C04_accept_frames.
+
+(* one step keeps the invariants, provided the partition the log rotates into has been cleaned *)
+Theorem C04_content_step : forall m rv s n off o,
+  pub_inv n off s -> content_inv (ps_log s) n off -> mtu_aligned (ps_log s) -> op_ok (ps_log s) o ->
+  (snd (pub_step m rv s o) = Err AdminAction -> part (ps_log s) (next_index (ps_log s)) = []) ->
+  exists n' off', pub_inv n' off' (fst (pub_step m rv s o)) /\ content_inv (ps_log (fst (pub_step m rv s o))) n' off' /\
+                  same_geom (ps_log s) (ps_log (fst (pub_step m rv s o))).
+Proof. exact content_step. Qed.
+Print Assumptions C04_content_step.
+
+(* the composition over whole histories: the complete oracle (every operation: flow, bytes, environment operations) is true on
+   the model's trace of every history from every aligned hand-over point, under the cleaning contract stated on the run ... *)
+Theorem C04_oracle_history : forall m rv h ops,
+  handover_ok h -> handover_aligned h -> hist_ok (handover_log h) ops ->
+  clean_before_reuse m rv (pub_init (handover_log h)) ops ->
+  holds_history (geom_of_handover h) (map oop_of ops) (pub_trace m rv (pub_init (handover_log h)) ops) = true.
+Proof. exact oracle_history_shared. Qed.
+Print Assumptions C04_oracle_history.
+
+(* ... and under its syntactic form (a Clean between any two appends - what the history generator emits) *)
+Theorem C04_oracle_history_cleaned : forall m rv h ops,
+  handover_ok h -> handover_aligned h -> hist_ok (handover_log h) ops -> cleaned_between false ops ->
+  holds_history (geom_of_handover h) (map oop_of ops) (pub_trace m rv (pub_init (handover_log h)) ops) = true.
+Proof. exact oracle_history_cleaned. Qed.
+Print Assumptions C04_oracle_history_cleaned.
+
+(* non-vacuity: a history that trips at the end of a term, rotates, fragments a message, claims and commits *)
+Example C04_history_example :
+  let h := mkHandover 7 1024 96 11 22 4 960 in
+  let ops := [SetLimit 100000; SetConnected true; Offer (payload 1 100); Clean; Offer (payload 2 100); Clean; Claim 8; Clean;
+              Commit (payload 3 8); Bulk [firstn 10 (payload 4 30); []; skipn 10 (payload 4 30)]] in
+  handover_ok h /\ handover_aligned h /\ hist_ok (handover_log h) ops /\ cleaned_between false ops /\
+  map (fun x => fst (fst x)) (pub_trace Debug harness_rv (pub_init (handover_log h)) ops) =
+    [Ok 0; Ok 0; Err AdminAction; Ok 0; Ok 5312; Ok 0; Ok 5376; Ok 0; Ok 0; Ok 5440].
+Proof.
+  cbv zeta. split; [|split; [|split; [|split]]].
+  - unfold handover_ok, geometry_ok. cbn [h_init h_tlen h_mtu h_n0 h_off0].
+    split; [split; [exists 10; split; [lia|reflexivity]|]|]; vm_compute; repeat split; discriminate.
+  - split; reflexivity.
+  - unfold hist_ok. repeat (constructor; [vm_compute; try exact I; repeat split; discriminate|]). constructor.
+  - vm_compute. repeat split.
+  - vm_compute. reflexivity.
+Qed.
 
 (* ---- the hypotheses are satisfiable: a log handed over 64 bytes before the end of the very last term, initial term id
    i32::MAX (so every term id has wrapped), a limit just beyond the end of the position space ---- *)
